@@ -103,6 +103,10 @@ OneofShapes == <<
         InOneof(MsgF("BranchD", 4, "Empty"), "Grp")>>, <<"Grp">>)>>), BaseCfg),
   Shape("x.snake", Desc(<<Msg("Root", <<InOneof(Fld("BranchA", 1, "int32"), "lower_grp"),
         InOneof(Fld("branch_e", 2, "bool"), "lower_grp")>>, <<"lower_grp">>)>>), BaseCfg),
+  \* two groups whose branch names interleave once the fields are sorted by name
+  Shape("x.interleaved", Desc(<<Leaf, Msg("Root", <<InOneof(Fld("BranchA", 1, "string"), "Grp"), InOneof(MsgF("BranchC", 2, "Leaf"), "Grp"),
+        InOneof(Fld("BranchB", 3, "int32"), "Grp2"), InOneof(Fld("BranchD", 4, "string"), "Grp2"), Fld("Alpha", 5, "bool")>>, <<"Grp", "Grp2">>)>>),
+        [BaseCfg EXCEPT !.sort = TRUE]),
   Shape("x.two", Desc(<<Msg("Root", <<InOneof(Fld("BranchA", 1, "string"), "Grp"), InOneof(Fld("BranchB", 2, "string"), "Grp"),
         InOneof(Fld("BranchC", 3, "int32"), "Grp2"), InOneof(Fld("BranchD", 4, "int32"), "Grp2")>>, <<"Grp", "Grp2">>)>>), BaseCfg) >>
 
